@@ -320,6 +320,11 @@ def run_history(C, table, hist, capacity, fresh, first):
             if n.startswith("create(") and st_before == st:
                 # creating what an earlier call created: SpilException is the documented answer
                 exp = ["EXC", "SpilException"]
+            if n.startswith("find_one(") and st_before and isinstance(r, list) and r[:1] == ["Sid"]:
+                # which element comes first after a data change is the directory's creation order: any found Sid is right
+                allkey = (st_before, n.replace("find_one(", "find_all("))
+                if allkey in fresh and r in fresh[allkey]:
+                    exp = r
             if r != exp:
                 out.append(dict(signature=classify(hist, n, r, exp), observed=r, expected=exp))
     env.set_cache_capacity(None)
@@ -349,8 +354,8 @@ def plan(tier, seed):
             shards.append({"hashseed": hs, "first": first, "depth": 2, "part": [0, 1], "capacities": caps})
     if tier == "thorough":
         for hs, first in ((0, "local"), (1, "server")):
-            for i in range(6):
-                shards.append({"hashseed": hs, "first": first, "depth": 3, "part": [i, 6], "capacities": [None, 1]})
+            for i in range(7):
+                shards.append({"hashseed": hs, "first": first, "depth": 3, "part": [i, 7], "capacities": [None, 1]})
     return {"shards": shards}
 
 
@@ -391,7 +396,16 @@ def run_shard(sh):
     seen_states = set()
     depth = sh["depth"]
     pi, pn = sh["part"]
-    for hi, hist in enumerate(itertools.product(names, repeat=depth)):
+    space = names
+    if depth == 3:
+        # triples over the core alphabet: one representative per group of equivalent call forms
+        seen_g, space = set(), []
+        for n in names:
+            g = table[n][2]
+            if g is None or g not in seen_g:
+                space.append(n)
+                seen_g.add(g)
+    for hi, hist in enumerate(itertools.product(space, repeat=depth)):
         if hi % pn != pi:
             continue
         if depth == 3 and (hist[0] == hist[1] == hist[2]):
